@@ -288,7 +288,20 @@ class _EvaluatorCompiler:
     visit_add_binary_op = _straight_evaluate_numeric_only
     visit_mul_binary_op = _straight_evaluate_numeric_only
     visit_sub_binary_op = _straight_evaluate_numeric_only
-    visit_mod_binary_op = _straight_evaluate_numeric_only
+
+    def visit_mod_binary_op(self, operator, eval_left, eval_right, clause):
+        # SQL "%" / MOD() truncates toward zero (the result takes the sign
+        # of the dividend) on all supported backends; Python's % floors
+        # (the result takes the sign of the divisor): -7 % 3 is -1 in SQL,
+        # 2 in Python.
+        def sql_mod(a, b):
+            result = abs(a) % abs(b)
+            return -result if a < 0 else result
+
+        return self._straight_evaluate_numeric_only(
+            sql_mod, eval_left, eval_right, clause
+        )
+
     visit_truediv_binary_op = _straight_evaluate_numeric_only
     visit_lt_binary_op = _straight_evaluate
     visit_le_binary_op = _straight_evaluate
